@@ -244,6 +244,16 @@ func init() {
 				}
 				return true
 			})
+			// the literals are the prefix templates the model instantiates: each must be one ("[%v]…"); a body that
+			// builds the prefix some other way is NOT understood — say so instead of printing a table of other strings
+			for _, l := range lits {
+				if !strings.HasPrefix(l, "[%v]") {
+					return fmt.Errorf("loggerPlus.%s: string literal %q is not a `[%%v]…` prefix template (the prefix is built in a way the translator does not read)", name, l)
+				}
+			}
+			if len(lits) == 0 {
+				return fmt.Errorf("loggerPlus.%s: no `[%%v]…` prefix template found", name)
+			}
 			fmt.Fprintf(w, "/-- `loggerPlus.%s`: string literals in source order (nil context first, then id-carrying). -/\ndef %sLits : List String := [%s]\n", name, name, quoteAll(lits))
 		}
 
